@@ -706,6 +706,7 @@ CORE_CFGS = {
     "ctxp": (["A", "B"], {"VP_HOOKS": "A:x,B:e", "VP_CAP": "2", "VP_CTXPERSIST": "1"}),
     "perm": (["A", "B"], {"VP_HOOKS": "A:sx,B:sx", "VP_FLAGS": "A:RP/-,B:CUS", "VP_CAP": "2"}),
     "ps2q": (["A", "B"], {"VP_CAP": "2", "VP_CTXPERSIST": "1", "VP_SETUP": "loop2", "VP_MAXPAY": "2"}),
+    "pillcb": (["A", "B"], {"VP_HOOKS": "B:x", "VP_CAP": "2", "VP_CTXPERSIST": "1", "VP_SETUP": "loop2", "VP_MAXPAY": "2"}),
     "ps2": (["A", "B"], {"VP_CAP": "2", "VP_CTXPERSIST": "1", "VP_SETUP": "loop2", "VP_MAXPAY": "2"}),
     "pub2": (["A", "B"], {"VP_CAP": "2", "VP_CTXPERSIST": "1", "VP_SETUP": "loop2"}),
     "ps3": (["A", "B", "C"], {"VP_CAP": "2", "VP_CTXPERSIST": "1", "VP_SETUP": "loop3"}),
@@ -798,7 +799,7 @@ def core_check(prop, tier, seed, quick_cfgs, thorough_cfgs, rule, Dq=5, Dt=7, bu
 
 @check("C01")
 def c01(prop, tier, seed):
-    return core_check(prop, tier, seed, ["life", "lifec", "ctx3c", "ps2q"], ["life", "lifec", "ctx3c", "ps2q", "ctx", "perm", "pub2"],
+    return core_check(prop, tier, seed, ["life", "lifec", "ctx3c", "ps2q", "pillcb"], ["life", "lifec", "ctx3c", "ps2q", "pillcb", "ctx", "perm", "pub2"],
                       "Compared after every step: module states, registered count, running_modules, callback kind/module/order, return codes.", sim_cfgs=["mixb"])
 
 
@@ -822,19 +823,19 @@ def c02(prop, tier, seed):
 
 @check("C08")
 def c08(prop, tier, seed):
-    return core_check(prop, tier, seed, ["ps2q", "batch", "bc2"], ["ps2q", "batch", "bc2", "ps2", "ps3"],
+    return core_check(prop, tier, seed, ["ps2q", "batch", "bc2", "pillcb"], ["ps2q", "batch", "bc2", "pillcb", "ps2", "ps3"],
                       "Focus: two payloads in flight to one recipient, poison pill ordering, pause/resume, quit + flush.", Dq=6, Dt=8, sim_cfgs=["mix"])
 
 
 @check("C19")
 def c19(prop, tier, seed):
-    return core_check(prop, tier, seed, ["sysmq", "sysos", "sysc", "tick", "tickh"], ["sysm", "sysos", "sysc", "sysmq", "tick", "tickh"],
+    return core_check(prop, tier, seed, ["sysmq", "sysos", "sysc", "tick", "tickh", "pillcb"], ["sysm", "sysos", "sysc", "sysmq", "tick", "tickh", "pillcb"],
                       "Focus: subscriptions to the system topics; notifications are ordinary mailbox messages (sender, topic, system flag compared).")
 
 
 @check("C13")
 def c13(prop, tier, seed):
-    return core_check(prop, tier, seed, ["batch", "btmo", "kevl", "tbb", "tbbt"], ["batch", "btmo", "kevl", "tbb", "tbbt", "stashb"],
+    return core_check(prop, tier, seed, ["batch", "btmo", "kevl", "tbb", "tbbt", "tbbte"], ["batch", "btmo", "kevl", "tbb", "tbbt", "tbbte", "stashb"],
                       "Focus: low/normal/high priority subscriptions, batch sizes, which arrival triggers a handler invocation and with which events.", Dq=7, Dt=9)
 
 
@@ -872,7 +873,7 @@ def c20(prop, tier, seed):
 
 @check("C18")
 def c18(prop, tier, seed):
-    return core_check(prop, tier, seed, ["tb", "tbtmr", "tbb", "tbbt"], ["tb", "tbtmr", "tbb", "tbbt"],
+    return core_check(prop, tier, seed, ["tb", "tbtmr", "tbb", "tbbt", "tbbte"], ["tb", "tbtmr", "tbb", "tbbt", "tbbte"],
                       "Focus: token bucket: every kind of rate-limited call with 0, 1, 2 tokens (EAGAIN and no effect without a token), refill ticks capped at the burst, rate 0 and stop remove the limit; token count compared after every step.", Dq=6, Dt=8)
 
 
